@@ -53,6 +53,14 @@ std::string hex_id(unsigned n) {
     return std::string(buf, 64);
 }
 
+// ids are hexadecimal: a quarter of the time the same id is spelled with upper-case digits (all, or a random subset)
+std::string spell(Rng& r, std::string hex) {
+    if (!r.chance(1, 4)) return hex;
+    const bool all = r.chance(1, 2);
+    for (auto& ch : hex) if (ch >= 'a' && ch <= 'f' && (all || r.chance(1, 2))) ch = static_cast<char>(ch - 'a' + 'A');
+    return hex;
+}
+
 struct Client {
     int fd{-1};
     int server_fd{-1};
@@ -328,10 +336,10 @@ void c25_case(Ctx& c, Rng& r) {
         const int pairs = std::min(nclients / 2, 1 + static_cast<int>(r.below(2)));
         for (int q = 0; q < pairs; ++q) {
             const int a = 2 * q, b = 2 * q + 1, p = q % npeers;
-            st.client_send(a, "REGISTER " + hex_id(p) + "\n");
+            st.client_send(a, "REGISTER " + spell(r, hex_id(p)) + "\n");
             registered_as[a] = p;
             if (r.chance(3, 4)) st.serve_readable(a);
-            st.client_send(b, "CONNECT " + hex_id(10 + b) + " " + hex_id(p) + "\n");
+            st.client_send(b, "CONNECT " + hex_id(10 + b) + " " + spell(r, hex_id(p)) + "\n");
             did_connect[b] = true;
             if (r.chance(1, 2)) st.serve_readable(a);
             st.serve_readable(b);
@@ -345,7 +353,7 @@ void c25_case(Ctx& c, Rng& r) {
         const auto k = r.below(16);
         if (k <= 1) {
             const int p = static_cast<int>(r.below(npeers));
-            st.client_send(i, "REGISTER " + hex_id(p) + (r.chance(1, 4) ? "\r\n" : "\n"));
+            st.client_send(i, "REGISTER " + spell(r, hex_id(p)) + (r.chance(1, 4) ? "\r\n" : "\n"));
             registered_as[i] = p;
             c.note(cl.session && cl.session->partner.lock() ? "ops.re-register-while-claimed" : "ops.register");
             sig = hx::mix(sig, 1);
@@ -353,7 +361,7 @@ void c25_case(Ctx& c, Rng& r) {
             const int t = static_cast<int>(r.below(npeers));
             int self = 10 + i;
             if (r.chance(1, 8)) self = t;   // self-connect
-            const std::string line = "CONNECT " + (self == t ? hex_id(t) : hex_id(self)) + " " + hex_id(t) + "\n";
+            const std::string line = "CONNECT " + (self == t ? hex_id(t) : hex_id(self)) + " " + spell(r, hex_id(t)) + "\n";
             if (r.chance(1, 3) && line.size() > 10) { const auto cut = 1 + r.below(line.size() - 1); st.client_send(i, line.substr(0, cut)); st.serve_readable(i); st.client_send(i, line.substr(cut)); }
             else st.client_send(i, line);
             did_connect[i] = true;
@@ -493,8 +501,8 @@ void c26_case(Ctx& c, Rng& r) {
             const int i = static_cast<int>(r.below(nclients));
             const auto k = r.below(14);
             std::string bytes;
-            if (k == 0) bytes = "REGISTER " + hex_id(static_cast<unsigned>(r.below(3))) + "\n";
-            else if (k == 1) bytes = "CONNECT " + hex_id(10 + i) + " " + hex_id(static_cast<unsigned>(r.below(3))) + "\n";
+            if (k == 0) bytes = "REGISTER " + spell(r, hex_id(static_cast<unsigned>(r.below(3)))) + "\n";
+            else if (k == 1) bytes = "CONNECT " + hex_id(10 + i) + " " + spell(r, hex_id(static_cast<unsigned>(r.below(3)))) + "\n";
             else if (k == 2) { bytes = identity_bytes(i).substr(0, r.below(33)); }
             else if (k == 3) { const auto& d = valid_dialogue[r.below(valid_dialogue.size())]; bytes = d.substr(0, r.below(d.size() + 1)); }   // every prefix of valid dialogue pieces
             else if (k == 4) { bytes.assign(r.chance(1, 4) ? (1u << 20) : 1 + r.below(70000), 'A'); if (r.chance(1, 2)) bytes += "\n"; c.note("streams.huge-lines"); }
@@ -676,7 +684,7 @@ void relay_threaded_case(Ctx& c, Rng& r, bool resources) {
             Rng q(x.seed);
             if (!connect_to(x)) return;
             jitter(q);
-            const std::string line = "REGISTER " + hex_id(static_cast<unsigned>(x.peer)) + "\n";
+            const std::string line = "REGISTER " + spell(q, hex_id(static_cast<unsigned>(x.peer))) + "\n";
             const auto cut = q.below(line.size());
             if (!t_send(x, line.substr(0, cut))) return;
             jitter(q);
@@ -702,7 +710,7 @@ void relay_threaded_case(Ctx& c, Rng& r, bool resources) {
             for (int attempt = 0; attempt < 4 && !x.reply_ok; ++attempt) {
                 jitter(q);
                 const auto before = x.rx.size();
-                if (!t_send(x, "CONNECT " + x.self_hex + " " + hex_id(static_cast<unsigned>(x.peer)) + "\n")) return;
+                if (!t_send(x, "CONNECT " + x.self_hex + " " + spell(q, hex_id(static_cast<unsigned>(x.peer))) + "\n")) return;
                 for (int w = 0; w < 500 && x.rx.find('\n', before) == std::string::npos; ++w) if (!t_read(x, 20)) return;
                 if (x.rx.compare(before, 3, "OK\n") == 0) x.reply_ok = true;
                 else ::usleep(static_cast<useconds_t>(300 + q.below(1500)));
